@@ -3,6 +3,7 @@
 package gwsim
 
 import (
+	"sync"
 	_ "unsafe" // go:linkname
 
 	_ "github.com/scionproto/scion/gateway/dataplane"
@@ -57,4 +58,24 @@ func auditPool(clean bool) int {
 		return framePoolSize - max(n, 0)
 	}
 	return 0
+}
+
+// The sending gateway numbers its streams with a process-wide counter that is seeded from the
+// clock on first use (gateway/dataplane encoder.go: var streamIDs). Forgetting the seed before
+// every run makes the stream IDs of a run a function of the run alone (the first sender of the
+// run seeds the counter from the simulated clock), so that a replay in a fresh process sees the
+// same IDs as the n-th run of a worker process.
+//
+//go:linkname dataplaneStreamIDs github.com/scionproto/scion/gateway/dataplane.streamIDs
+var dataplaneStreamIDs struct {
+	sync.Mutex
+	started bool
+	last    uint32
+}
+
+func resetStreamIDs() {
+	dataplaneStreamIDs.Lock()
+	dataplaneStreamIDs.started = false
+	dataplaneStreamIDs.last = 0
+	dataplaneStreamIDs.Unlock()
 }
